@@ -12,6 +12,7 @@ positions are checked against the harness's own record of deliveries; reset()
 from __future__ import annotations
 
 import copy
+import json
 import random
 
 from hsverif.core import Family, Result
@@ -27,7 +28,10 @@ RULE = (
     "metric breakpoints added at the start and at pauses, and combinations. Oracles: delivery log, final clock and "
     "summary counters equal to the unobserved run; each step(n) advances events_processed by exactly n unless the run "
     "ended; with breakpoints and resume only, every pause happens right after the first delivery satisfying an active "
-    "breakpoint and none is missed; reset()+run() repeats the delivery sequence (type, target, time). Non-trivial: the "
+    "breakpoint and none is missed (also when the same immutable breakpoint objects are registered on a second, fresh "
+    "simulation); pause() pressed while already paused followed by step(n); a step(n) that delivers nothing while "
+    "the run is active with events pending is a violation in every mode; reset()+run() repeats the delivery sequence "
+    "(type, target, time). Non-trivial: the "
     "run had >= 20 deliveries and the script paused at least once inside the run. Distinct by hash of (program, mode)."
 )
 ASSUMPTIONS = [
@@ -89,8 +93,11 @@ def _gen_mode(rng, prog, kind, n_events, horizon_ns):
                 mode["script"].append({"op": "peek", "n": rng.randrange(1, 4)})
             elif r < 0.9:
                 mode["script"].append({"op": "state"})
-            else:
+            elif r < 0.95:
                 mode["script"].append({"op": "pause"})
+            else:
+                # "pause" pressed while already paused, then a step
+                mode["script"].append({"op": "pause_step", "n": rng.choice([1, 2, 3, 5])})
         if kind == "M7":
             mode["recorder"] = rng.random() < 0.5
             mode["tracing"] = rng.random() < 0.5
@@ -109,6 +116,8 @@ def _gen_mode(rng, prog, kind, n_events, horizon_ns):
         for _ in range(rng.randrange(0, 3)):
             mode["script"].append({"op": "add_bp", "bp": _bp_spec(rng, prog["n_ent"], horizon_ns, n_events)})
             mode["script"].append({"op": "resume"})
+        # the same breakpoint *objects* (immutable value objects) registered on a second, fresh simulation
+        mode["repeat_shared_bps"] = rng.random() < 0.4
     return mode
 
 
@@ -176,7 +185,15 @@ class _BP:
         v = d["handled"][s["ent"]]
         return {"ge": v >= s["thr"], "gt": v > s["thr"], "eq": v == s["thr"]}[s["op"]]
 
-    def build(self):
+    def build(self, cache=None):
+        if cache is None:
+            return self._build()
+        key = json.dumps(self.spec, sort_keys=True)
+        if key not in cache:
+            cache[key] = self._build()
+        return cache[key]
+
+    def _build(self):
         from happysimulator.core.control.breakpoints import (
             ConditionBreakpoint,
             EventCountBreakpoint,
@@ -203,7 +220,7 @@ class _BP:
         return MetricBreakpoint(entity_name=f"e{s['ent']}", attribute="handled", operator=s["op"], threshold=s["thr"], one_shot=s["one_shot"])
 
 
-def drive(prog, mode, res: Result | None = None, check_positions: bool = True, builder=None):
+def drive(prog, mode, res: Result | None = None, check_positions: bool = True, builder=None, bp_cache=None):
     """Run `prog` under `mode`. Returns (RealRun, sim, info)."""
     from happysimulator.core import event as _ev
     from happysimulator.instrumentation.recorder import InMemoryTraceRecorder
@@ -242,7 +259,7 @@ def drive(prog, mode, res: Result | None = None, check_positions: bool = True, b
                     if hb["at"] == len(deliveries):
                         # a breakpoint armed from inside the run (event hook), while the loop is executing
                         nb = _BP(hb["bp"], since=len(deliveries) - 1)
-                        ctl.add_breakpoint(nb.build())
+                        ctl.add_breakpoint(nb.build(bp_cache))
                         active.append(nb)
 
             ctl.on_event(on_event)
@@ -253,7 +270,7 @@ def drive(prog, mode, res: Result | None = None, check_positions: bool = True, b
             ctl.on_time_advance(on_time)
         for spec in mode.get("bps") or []:
             bp = _BP(spec)
-            ctl.add_breakpoint(bp.build())
+            ctl.add_breakpoint(bp.build(bp_cache))
             active.append(bp)
         only_bps = mode["kind"] == "M6"
         if mode.get("pause_first"):
@@ -281,11 +298,20 @@ def drive(prog, mode, res: Result | None = None, check_positions: bool = True, b
             cmd = script[i] if i < len(script) else {"op": "resume"}
             i += 1
             op = cmd["op"]
-            if op == "step":
+            if op in ("step", "pause_step"):
                 before = st.events_processed
+                if op == "pause_step":
+                    ctl.pause()
                 ctl.step(cmd["n"])
                 after = ctl.get_state()
                 info["steps_checked"] += 1
+                if res is not None and after.events_processed == before and after.is_running and after.is_paused and sim._event_heap.has_events():
+                    res.add(
+                        "step-count",
+                        "SimulationControl",
+                        "step-delivered-nothing" + ("-after-pause-while-paused" if op == "pause_step" else ""),
+                        f"step({cmd['n']}) delivered no event although the run is still active with events pending",
+                    )
                 if res is not None and not mode.get("bps") and mode.get("hook_pause_at") is None and not mode.get("hook_bps") and not any(c["op"] == "add_bp" for c in script):
                     got = after.events_processed - before
                     if got != cmd["n"] and (after.is_running or got > cmd["n"]):
@@ -306,7 +332,7 @@ def drive(prog, mode, res: Result | None = None, check_positions: bool = True, b
                 ctl.resume()
             elif op == "add_bp":
                 bp = _BP(cmd["bp"], since=len(deliveries))
-                ctl.add_breakpoint(bp.build())
+                ctl.add_breakpoint(bp.build(bp_cache))
                 active.append(bp)
         if only_bps and res is not None and check_positions:
             _check_bp_pause(res, deliveries[since_resume[0] :], active, paused=False)
@@ -382,7 +408,12 @@ def run_modes(case: dict) -> Result:
         inside = 0
         for mode in case["modes"]:
             def one(mode=mode):
-                rr, sim, info = drive(prog, mode, res)
+                cache = {} if mode.get("repeat_shared_bps") else None
+                rr, sim, info = drive(prog, mode, res, bp_cache=cache)
+                if cache is not None:
+                    # second fresh simulation, same breakpoint objects; judged like the first
+                    res.count("shared_breakpoint_reruns")
+                    rr, sim, info = drive(prog, mode, res, bp_cache=cache)
                 box["out"] = _outcome(rr, sim)
                 box["info"] = info
 
